@@ -48,6 +48,25 @@ theorem merge_cons_cons (lt : α → α → Bool) (a b : α × Nat) (l r : List 
   have e2 : l.length + 1 + r.length = l.length + (r.length + 1) := by omega
   rw [e2]
 
+/-- induction principle following the recursion of `merge` (compatibility: replaces `fun_induction merge`);
+the motive sees the two runs and the merged result -/
+theorem merge_induction (lt : α → α → Bool) {motive : List (α × Nat) → List (α × Nat) → List (α × Nat) → Prop}
+    (case1 : ∀ r, motive [] r r)
+    (case2 : ∀ a l, motive (a :: l) [] (a :: l))
+    (case3 : ∀ a l b r, lt b.1 a.1 = true → motive (a :: l) r (merge lt (a :: l) r) →
+      motive (a :: l) (b :: r) (b :: merge lt (a :: l) r))
+    (case4 : ∀ a l b r, ¬ lt b.1 a.1 = true → motive l (b :: r) (merge lt l (b :: r)) →
+      motive (a :: l) (b :: r) (a :: merge lt l (b :: r))) :
+    ∀ l r, motive l r (merge lt l r)
+  | [], r => by rw [merge_nil_left]; exact case1 r
+  | a :: l, [] => by rw [merge_nil_right]; exact case2 a l
+  | a :: l, b :: r => by
+    rw [merge_cons_cons]
+    by_cases h : lt b.1 a.1 = true
+    · rw [if_pos h]; exact case3 a l b r h (merge_induction lt case1 case2 case3 case4 (a :: l) r)
+    · rw [if_neg h]; exact case4 a l b r h (merge_induction lt case1 case2 case3 case4 l (b :: r))
+termination_by l r => l.length + r.length
+
 theorem merge_perm (lt : α → α → Bool) : ∀ l r : List (α × Nat), (merge lt l r).Perm (l ++ r)
   | [], r => by simp
   | a :: l, [] => by simp
